@@ -511,6 +511,24 @@ pub fn o_free_space(prop: &str, ops: &[Op], ex: &Exec) -> V {
                     }
                 }
             }
+            Op::Truncate { h } => {
+                // everything from the cursor onward goes back to the free pool
+                if let Some(hd) = &ex.model_pre.fh[*h as usize] {
+                    let p = ex.model_pre.path_of(hd.nid);
+                    if let Some(e) = pre.find_entry(&p) {
+                        let cs = pre.geo.cluster_size();
+                        let keep = ((hd.pos + cs - 1) / cs) as usize;
+                        let before = e.chain.len();
+                        if before >= keep && post.free != pre.free + (before - keep) as u64 {
+                            push(
+                                &mut v,
+                                format!("{prop}/truncate/clusters-not-returned"),
+                                format!("truncate of {p} at {} (chain of {before} clusters, {keep} kept): free {} -> {}", hd.pos, pre.free, post.free),
+                            );
+                        }
+                    }
+                }
+            }
             _ => {}
         }
     }
